@@ -218,6 +218,57 @@ class C02(Prop):
                     "expected": want, "observed": out}
         return None
 
+    def extra_checks(self, rng, tier, ev):
+        """acceptance must not depend on what the same decoder / dispatcher instance saw before"""
+        viol = []
+        n = 0
+        from nxslib.proto.serialframe import SerialFrame
+        for _ in range(400 if tier == "thorough" else 80):
+            sf = SerialFrame()
+            rec = Recorder()
+            f = g.request_frame(rng)
+            if len(f) <= 6:
+                f = ref_frame(rng.choice([6, 7]), g.rbytes(rng, rng.randrange(3, 9)))
+            seq = [f]
+            for _ in range(rng.randrange(1, 4)):
+                tw = bytearray(f)
+                for _ in range(rng.choice([1, 1, 2, 3])):
+                    tw[rng.randrange(4, len(f) - 2)] ^= 1 << rng.randrange(8)     # payload changed, header and CRC bytes kept
+                seq.append(bytes(tw))
+            seq.append(f)
+            for d in seq:
+                n += 1
+                exp = accepts(d)
+                r = sf.frame_decode(d)
+                got = None if r.err != 0 else (int(r.fid), r.data)
+                out = rec.handle(d)
+                if got != exp or (exp is None and out != "ignored"):
+                    viol.append({"key": "history-dependent-accept", "case": "sequence " + ",".join(hexs(x) for x in seq),
+                                 "what": f"after the same instance had accepted {hexs(f)}, the byte string {hexs(d)} was treated differently from the acceptance predicate",
+                                 "expected": repr(exp) + (" / ignored" if exp is None else ""), "observed": f"decoder: {got!r}; dispatcher: {out}",
+                                 "sequence": [hexs(x) for x in seq]})
+                    break
+            if len(viol) >= 3:
+                break
+        ev["coverage"]["stateful_sequences_inputs"] = n
+        return viol
+
+    def replay(self, obj):
+        if obj.get("key") == "history-dependent-accept":
+            from nxslib.proto.serialframe import SerialFrame
+            sf = SerialFrame()
+            rec = Recorder()
+            for h in obj["sequence"]:
+                d = unhex(h)
+                exp = accepts(d)
+                r = sf.frame_decode(d)
+                got = None if r.err != 0 else (int(r.fid), r.data)
+                out = rec.handle(d)
+                if got != exp or (exp is None and out != "ignored"):
+                    return {"key": "history-dependent-accept", "what": f"{h} treated differently after the earlier inputs", "expected": repr(exp), "observed": f"{got!r} / {out}"}
+            return None
+        return self.oracle(obj["case"])
+
     def search_cases(self, rng):
         for _ in range(20):
             f = g.request_frame(rng)
